@@ -36,12 +36,18 @@ def make_root(kind, cfgk):
     kw = dict(rounding='floor', overflow='saturate', callbacks=[rec])
     if cfgk == 'B':
         kw.update(shifting='trunc', op_sizing='same', overflow='wrap', rounding='around')
+    if kind == 'wide':                      # 64-bit words (Python-integer storage), negative codes
+        return Fxp(np.array([-(1 << 63), -3, (1 << 62) + 1], dtype=object), True, 64, 0, raw=True, **kw)
+    if kind == 'scaled':                    # integer scale and bias on a signed format without fraction bits (integer value type)
+        return Fxp([5, -3, 7], True, 8, 0, scale=2, bias=1, **kw)
+    if kind == 'unsigned':
+        return Fxp([1.25, 3.0, 0.3], False, 8, 2, **kw)
     val = {'scalar': 1.3, 'vec': [1.3, -2.0, 0.75], 'mat': [[1.3, -2.0], [0.75, 3.5]]}[kind]
     x = Fxp(val, True, 8, 2, **kw)          # 1.3 is inexact -> inaccuracy flag raised
     return x
 
 
-ROOTS = [(k, c) for k in ('scalar', 'vec', 'mat') for c in ('A', 'B')]
+ROOTS = [(k, c) for k in ('scalar', 'vec', 'mat') for c in ('A', 'B')] + [('wide', 'A'), ('scaled', 'A'), ('unsigned', 'B')]
 
 
 # ------------------------------------------------------------------------------------------ derivations
@@ -57,6 +63,17 @@ def _arr(o):
 
 def _mat(o):
     if np.ndim(o.val) != 2:
+        raise Disabled()
+    return o
+
+
+def _elem(o):
+    return o if np.ndim(o.val) == 0 else o[(0,) * np.ndim(o.val)]
+
+
+def _nz(o):
+    """the operand itself if it holds no zero (divisors)"""
+    if any(c == 0 for c in codes(o)):
         raise Disabled()
     return o
 
@@ -128,6 +145,23 @@ DERIVS = [
     ('m.T', lambda h, o: _arr(o).T, False),
     ('m.flatten', lambda h, o: _arr(o).flatten(), False),
     ('m.dot', lambda h, o: _arr(o).dot(_arr(o).T if np.ndim(o.val) == 2 else o), False),
+    # constructor keywords next to an inherited configuration: they belong to the NEW object only
+    ('config=+kw', lambda h, o: Fxp(1.0, True, 8, 2, config=o.config, overflow='wrap' if o.config.overflow == 'saturate' else 'saturate',
+                                     rounding='ceil', shifting='keep', op_sizing='largest'), False),
+    ('like=+kw', lambda h, o: Fxp(_shapeval(o), like=o, overflow='wrap' if o.config.overflow == 'saturate' else 'saturate', rounding='ceil'), False),
+    ('template=+kw', lambda h, o: Fxp(1.0, template=o, rounding='fix', overflow='wrap' if o.config.overflow == 'saturate' else 'saturate'), False),
+    # every public read / render, then a deep copy: reading an object never changes it (nor anything else)
+    ('reads', lambda h, o: (o.bin(), o.hex(), o.base_repr(10), o.raw(), o.uraw(), o.get_val(), o.astype(float), o.astype(int), str(o), repr(o), o.dtype,
+                            o.get_dtype('Q'), np.asarray(o), o.upper, o.get_status(), o.deepcopy())[-1], False),
+    ('int_reads', lambda h, o: (int(_elem(o)), float(_elem(o)), bool(_elem(o)), _elem(o).astype(int), o.astype(int, index=None), o.deepcopy())[-1], False),
+    ('mod', lambda h, o: o % _nz(_other(h)), False),
+    ('floordiv', lambda h, o: fx.floordiv(o, _nz(_other(h)), method='raw'), False),
+    ('mod_raw_repr', lambda h, o: (fx.mod(o, _nz(_other(h)), method='raw'), fx.mod(o, _nz(_other(h)), method='repr'))[1], False),
+    ('mul_out_finer', lambda h, o: fx.mul(o, _other(h), out=Fxp(_shapeval(o, 0.0), True, 60, 30)), False),
+    ('sub_out', lambda h, o: fx.sub(_other(h), o, out=Fxp(_shapeval(o, 0.0), True, 40, 10)), False),
+    ('clip_int', lambda h, o: np.clip(o, -1, 1), False),
+    ('m.clip_int', lambda h, o: o.clip(-2, 2), False),
+    ('cmp', lambda h, o: Fxp(np.asarray(o < _other(h)).astype(int) if np.shape(o.val) == np.shape(_other(h).val) else _dis()), False),
     # index views: the last field marks "view of the parent"
     ('o[0]', lambda h, o: _arr(o)[0], True),
     ('o[0:2]', lambda h, o: _arr(o)[0:2], True),
